@@ -231,6 +231,13 @@ impl<C: Suite> Model for M01<C> {
             &format!("{:?}", v.map(|r| r.map_err(|e| e.to_string()))),
         );
         o.record("sig", &Vec::<u8>::from(&sig));
+        if devs == 0 {
+            // values moved by the constant time selection helpers are unchanged
+            if let Ok(sig_b) = sk.sign(lib_scheme(st.s), b"the other slot") {
+                expect_ct_move(o, "C01", &format!("Signature<{}>", g), &sig, &sig_b);
+            }
+            expect_ct_move(o, "C01", &format!("PublicKey<{}>", g), &pk, &PublicKey::<C>(pk.0 + pk.0));
+        }
         // a different message must not verify (so that "accept" above is not vacuous)
         let mut other = msg.clone();
         other.push(0x01);
